@@ -12,11 +12,12 @@
 (*    field discriminates), and for every log BOTH active accounts;        *)
 (*  - enumerates the queries: every single field at every value of its     *)
 (*    discriminating range (below / equal / above every id, time, amount   *)
-(*    and length that occurs), every PAIR of fields (Arity >= 2), a        *)
-(*    -seed'ed random sample of up to five-field combinations (three       *)
-(*    filters + sort field x order x limit; NRand per log), and the legacy *)
-(*    look-ups by id / slate id / both / none, with and without            *)
-(*    query_args;                                                          *)
+(*    and length that occurs); with Arity >= 2 every PAIR of fields and    *)
+(*    RetrieveTxQueryArgs::default() with every single field on top (ten   *)
+(*    supplied fields); a -seed'ed random sample of up to six-field        *)
+(*    combinations (three filters + sort field x order x limit; NRand per  *)
+(*    log and account); and the legacy look-ups by id / slate id / both /  *)
+(*    none, with and without query_args;                                   *)
 (*  - model-checks on every case                                           *)
 (*      Inv_Reference   the reference answer breaks no monitor             *)
 (*      Inv_Repaired    the code model WITHOUT deviations breaks no        *)
@@ -131,6 +132,14 @@ AskPair   == /\ Arity >= 2
              /\ \E i \in 1..NF : \E j \in (i + 1)..NF :
                   \E v \in Vals(Fields[i], log) : \E w \in Vals(Fields[j], log) :
                      Ask(Adv((Fields[i] :> v) @@ (Fields[j] :> w)))
+\* RetrieveTxQueryArgs::default() (seven flags Some(false), sort by Id, Asc) with one field set on top:
+\* how a caller of the Rust API typically builds its arguments; ten supplied fields at once
+DefaultArgs == [exclude_cancelled |-> FALSE, include_outstanding_only |-> FALSE, include_confirmed_only |-> FALSE,
+                include_sent_only |-> FALSE, include_received_only |-> FALSE, include_coinbase_only |-> FALSE,
+                include_reverted_only |-> FALSE, sort_field |-> "Id", sort_order |-> "Asc"]
+AskDefaultPlus == /\ Arity >= 2
+                  /\ \/ Ask(Adv(DefaultArgs))
+                     \/ \E i \in 1..NF : \E v \in Vals(Fields[i], log) : Ask(Adv((Fields[i] :> v) @@ DefaultArgs))
 AskRand   == \E r \in rq : Ask(DecodeRand(r, log))
 \* legacy look-ups; a supplied query_args must be ignored when an id or slate id is given
 AskLegacy ==
@@ -144,7 +153,7 @@ AskLegacy ==
 AskOutstanding == Ask([id |-> NoId, slate |-> NoSlate, hasargs |-> FALSE, args |-> NoArgs, outstanding |-> TRUE])
 
 Next == /\ ~IsCase
-        /\ (AskEmpty \/ AskSingle \/ AskPair \/ AskRand \/ AskLegacy \/ AskOutstanding)
+        /\ (AskEmpty \/ AskSingle \/ AskPair \/ AskDefaultPlus \/ AskRand \/ AskLegacy \/ AskOutstanding)
 Spec == Init /\ [][Next]_vars
 
 \* ------------------------------------------------------------ properties
